@@ -16,7 +16,8 @@ func init() {
 		Patterns: []string{"./go/ir"},
 		NeedSSA:  true,
 		Explanation: "Exactness of the Lengauer–Tarjan implementation on all CFGs is algorithmic and is NOT decided. Decided are the freshness and single-source conditions every dominance query relies on: the dominator tree is built after the last CFG mutation of finishBody (no function that writes Preds/Succs/Index/Blocks is reachable from any call that follows buildDomTree, and optimizeBlocks — whose result 'all blocks reachable' the algorithm assumes — precedes it), and no exported function of go/ir statically reaches a CFG mutator, so the CFG cannot change under an existing tree (R14.1); " +
-			"the dominance fields are written only by code reachable from buildDomTree, and the query functions read only those fields (R14.2); numberDomTree assigns preorder numbers before and postorder numbers after visiting the children, and Dominates compares them in the matching directions (pre(b) <= pre(c) and post(c) <= post(b)), both roots (entry, recover) being numbered (R14.3).",
+			"the dominance fields are written only by code reachable from buildDomTree, and the query functions read only those fields (R14.2); numberDomTree assigns preorder numbers before and postorder numbers after visiting the children, and Dominates compares them in the matching directions (pre(b) <= pre(c) and post(c) <= post(b)), both roots (entry, recover) being numbered (R14.3)." +
+			" Also decided: Lengauer–Tarjan's vertex orders — steps 2/3 visit the DFS numbering in decreasing order and link afterwards; step 4 resolves deferred immediate dominators in increasing DFS number.",
 		RuleText:    "field effect sets closed over static callees in go/ir; ordering queries in finishBody and numberDomTree on the SSA CFG",
 		Assumptions: []string{"function bodies are built through the Function.build field (a dynamic call), so the static call graph of exported API functions contains no builder code"},
 		Run:         runC14,
